@@ -132,9 +132,12 @@ func run(f func()) result {
 
 // hungStack returns the stack of the goroutine started by run that is still going.
 func hungStack() string {
-	buf := make([]byte, 1<<20)
+	buf := make([]byte, 4<<20)
 	buf = buf[:runtime.Stack(buf, true)]
-	for _, g := range strings.Split(string(buf), "\n\n") {
+	gs := strings.Split(string(buf), "\n\n")
+	// the goroutine started last by run is the one that is still going (older ones are leftovers of earlier hangs)
+	for i := len(gs) - 1; i >= 0; i-- {
+		g := gs[i]
 		if strings.Contains(g, "c16.run.func1") {
 			if len(g) > 3000 {
 				g = g[:3000]
